@@ -49,16 +49,42 @@ func ParallelRoundTrips(workers, iters int, seed uint64) (evals int, fails []Par
 					mu.Unlock()
 				}
 				var out []byte
-				if it%2 == 0 {
-					out = f.format(in)
-				} else {
-					out = []byte(f.formatStr(string(in)))
+				panicked := false
+				func() {
+					// a panic of the real code must become a reported failure, not the
+					// death of the checking process
+					defer func() {
+						if rec := recover(); rec != nil {
+							panicked = true
+							report(fmt.Sprintf("Format panics: %v", rec))
+						}
+					}()
+					if it%2 == 0 {
+						out = f.format(in)
+					} else {
+						out = []byte(f.formatStr(string(in)))
+					}
+				}()
+				if panicked {
+					continue
 				}
 				if want := refFormat(k, in); !bytes.Equal(out, want) {
 					report(fmt.Sprintf("Format = %q, documented format is %q", out, want))
 					continue
 				}
-				back := []byte(f.parseBytes(out))
+				var back []byte
+				func() {
+					defer func() {
+						if rec := recover(); rec != nil {
+							panicked = true
+							report(fmt.Sprintf("Parse(Format(s)) panics: %v", rec))
+						}
+					}()
+					back = []byte(f.parseBytes(out))
+				}()
+				if panicked {
+					continue
+				}
 				want := in
 				if k == "unicode" || k == "utf16" {
 					want = want[:0:0]
